@@ -208,6 +208,16 @@ class VRefCell:
         self.arr, self.idx = arr, idx
 
 
+def _int_lit(t):
+    import re as _re
+    t = t.replace("_", "").replace(" ", "")
+    t = _re.sub(r"(u8|u16|u32|u64|u128|usize|i8|i16|i32|i64|i128|isize)$", "", t)
+    try:
+        return int(t, 0)
+    except ValueError:
+        return None
+
+
 def _deep_copy(v):
     if isinstance(v, VArr):
         return VArr([_deep_copy(x) for x in v.items], v.kind)
@@ -803,6 +813,12 @@ class Interp:
                 base.items[idx] = val
                 return
             self.fail(target, "indexed assignment on non-array")
+        if k == "field":
+            base = _deref(self.expr(target["e"], env))
+            if isinstance(base, VStruct):
+                base.fields[target["member"].strip()] = val      # `s.f = v` on a struct value held by reference
+                return
+            self.fail(target, "field assignment on a non-struct value")
         if k in ("paren",):
             return self.assign(target["e"], val, env)
         if k == "unary" and target["op"] == "*":
@@ -907,6 +923,10 @@ class Interp:
             if not isinstance(it.lo, int) or not isinstance(it.hi, int):
                 self.fail(e, "range with symbolic bounds")
             items = list(range(it.lo, it.hi))
+        if isinstance(it, (Sym, VOpaque)) and not (isinstance(it, VOpaque) and it.name in ("Some", "None")):
+            it = VSymIter(Sym(canon(it)))          # `for x in collection` (IntoIterator of a symbolic collection)
+        if isinstance(it, VRange):
+            pass
         elif isinstance(it, VArr) and e["iter"]["k"] == "ref" and e["iter"].get("mut"):
             items = [VRefCell(it, i) for i in range(len(it.items))]      # `for x in &mut v`: x is a mutable reference to the cell
         elif isinstance(it, (VIter, VArr)):
@@ -1014,7 +1034,7 @@ class Interp:
         # symbolic condition: only the shape `if cond { return Err(..) }` (no else) is in the fragment
         if e["else"] is None:
             st = e["then"]["stmts"]
-            if len(st) == 1 and st[0]["k"] == "expr" and st[0]["expr"]["k"] == "return":
+            if len(st) == 1 and st[0]["k"] == "expr" and st[0]["expr"]["k"] == "return" and st[0]["expr"].get("e") is not None:
                 rv = self.expr(st[0]["expr"]["e"], env)
                 if isinstance(rv, VErr):
                     self.ctx.exits.append(("err_if", c, rv.what))
@@ -1109,8 +1129,25 @@ class Interp:
             return True
         if k == "path" and isinstance(v, VOpaque) and not v.args:
             return "::".join(pat["path"].split("::")[-2:]) == v.name
-        if k == "lit" and isinstance(v, (bool, int)):
+        if k == "lit" and isinstance(v, bool):
             return pat["text"] == str(v).lower()
+        if k == "lit" and isinstance(v, int):
+            t = _int_lit(pat["text"])
+            if t is None:
+                self.fail(node, f"literal pattern {pat['text']}")
+            return t == v
+        if k == "range" and isinstance(v, int) and not isinstance(v, bool):
+            lo = _int_lit(pat["lo"]) if pat.get("lo") is not None else None
+            hi = _int_lit(pat["hi"]) if pat.get("hi") is not None else None
+            if (pat.get("lo") is not None and lo is None) or (pat.get("hi") is not None and hi is None):
+                self.fail(node, "range pattern with non-literal bounds")
+            if lo is not None and v < lo:
+                return False
+            if hi is not None and (v > hi if pat.get("closed") else v >= hi):
+                return False
+            return True
+        if k == "ident" and pat.get("name"):
+            return True          # a binding pattern matches everything (bound by the caller)
         self.fail(node, f"pattern {k} in match")
 
     def let_else(self, st, env):
@@ -1188,6 +1225,8 @@ class Interp:
         v = self.expr(e["e"], env)
         if isinstance(v, VOk):
             return v.v
+        if isinstance(v, VErr):
+            raise Return(v)          # a concrete Err: `?` leaves the function with it
         if isinstance(v, VOpaque) or isinstance(v, Sym):
             # result of an opaque fallible callee: log the early exit, continue with the Ok payload
             self.ctx.exits.append(("try", canon(v)))
@@ -1400,8 +1439,17 @@ class Interp:
         finally:
             self.inline_depth -= 1
 
+    RAYON_ALIASES = {"par_iter": "iter", "par_iter_mut": "iter_mut", "into_par_iter": "into_iter", "par_chunks": "chunks",
+                     "par_chunks_mut": "chunks_mut", "par_chunks_exact": "chunks_exact", "par_chunks_exact_mut": "chunks_exact_mut"}
+
     def e_mcall(self, e, env):
         m = e["m"]
+        if m in self.RAYON_ALIASES and ("." + m) not in self.contracts:
+            # ASSUMED (rayon): a parallel iterator yields the same items as its sequential counterpart, each exactly once; the
+            # closures of the kernels touch only their own item, so every schedule equals the sequential order
+            self.calls.append("ASSUMED-RAYON:" + m)
+            e = dict(e, m=self.RAYON_ALIASES[m])
+            m = e["m"]
         recv = self.expr(e["recv"], env)
         args = [self.expr(a, env) for a in e["args"]]
         for key in self.method_keys(e, recv, m):
@@ -1434,6 +1482,8 @@ class Interp:
                 if isinstance(recv, (VArr, VIter)):
                     return VIter(recv.items)
                 if isinstance(recv, VRange):
+                    if not (isinstance(recv.lo, int) and isinstance(recv.hi, int)):
+                        raise OutsideFragment("iteration over a range with symbolic bounds")
                     return VIter(list(range(recv.lo, recv.hi)))
                 if isinstance(recv, Sym):
                     return VSymIter(recv)
@@ -1565,6 +1615,8 @@ class Interp:
             return VOpaque("get", [recv, args[0]])
         if m in ("chunks_exact", "chunks") and isinstance(recv, (Sym, VOpaque)) and len(args) == 1:
             return VSymIter(Sym(VOpaque(m, [recv, args[0]]).canon()))
+        if m == "ok_or" and isinstance(recv, VOpaque) and recv.name in ("Some", "None") and len(recv.args) == (1 if recv.name == "Some" else 0):
+            return VOk(recv.args[0]) if recv.name == "Some" else VErr(canon_err(args[0]))      # a CONCRETE option
         if m == "ok_or" and isinstance(recv, VOpaque) and recv.name != "get" and len(args) == 1:
             return ("fallible", f"{recv.canon()} is None => Err({canon_err(args[0])})", VOpaque("some_of", [recv]))
         if m == "ok_or" and isinstance(recv, VOpaque) and recv.name == "get" and len(args) == 1:
@@ -1589,6 +1641,8 @@ class Interp:
                 self.call_closure(args[0], [x])
             return UNIT
         # ---- vec / slice mutation
+        if m in ("push", "extend", "extend_from_slice", "insert", "clear", "resize") and isinstance(recv, VOpaque) and recv.name.startswith("havoc:"):
+            return UNIT          # an unknown collection stays unknown
         if m == "push" and isinstance(recv, VCoeffVec):
             recv.push(args[0])
             return UNIT
@@ -1691,12 +1745,43 @@ class Interp:
             if not (0 <= args[0] <= len(recv.items)):
                 raise OutsideFragment("split_at out of bounds (would panic)")
             return VTuple([VView(recv, 0, args[0]), VView(recv, args[0], len(recv.items))])
+        if m == "eq" and isinstance(recv, (VIter, VArr)) and len(args) == 1 and isinstance(args[0], (VIter, VArr)):
+            # Iterator::eq: element by element, stops at the first difference; a symbolic comparison forks the path
+            xs, ys = list(recv.items), list(args[0].items)
+            for x, y in zip(xs, ys):
+                x, y = _deref(x), _deref(y)
+                if isinstance(x, (Poly, int, Sym)) and isinstance(y, (Poly, int, Sym)) and (as_poly(x) - as_poly(y)).is_zero():
+                    continue
+                if isinstance(x, (Poly, int)) and isinstance(y, (Poly, int)) and not as_poly(x).vars() and not as_poly(y).vars():
+                    return False
+                if not self.decide(VOpaque("eq", [x, y])):
+                    return False
+            return len(xs) == len(ys)
+        if m in ("trailing_zeros", "leading_zeros", "count_ones", "is_power_of_two", "next_power_of_two") and isinstance(recv, int) and not isinstance(recv, bool) and not args:
+            v = recv & 0xFFFFFFFFFFFFFFFF
+            if m == "trailing_zeros":
+                if v == 0:
+                    raise OutsideFragment("trailing_zeros(0) depends on the integer width, which the AST does not carry")
+                return (v & -v).bit_length() - 1
+            if m == "leading_zeros":
+                raise OutsideFragment("leading_zeros depends on the integer width, which the AST does not carry")
+            if m == "count_ones":
+                return bin(v).count("1")
+            if m == "is_power_of_two":
+                return v != 0 and v & (v - 1) == 0
+            return 1 if v == 0 else 1 << (v - 1).bit_length()
         if m == "div_ceil" and isinstance(recv, int) and len(args) == 1 and isinstance(args[0], int):
             if args[0] == 0:
                 raise OutsideFragment("division by zero (would panic)")
             return -(-recv // args[0])
         if m == "collect" and isinstance(recv, VIter) and not args and ".collect" not in self.contracts:
             return VArr(list(recv.items), "vec")
+        if m == "split_at_checked" and isinstance(recv, VArr) and len(args) == 1 and isinstance(args[0], int):
+            if not (0 <= args[0] <= len(recv.items)):
+                return VOpaque("None")
+            return VOpaque("Some", [VTuple([VView(recv, 0, args[0]), VView(recv, args[0], len(recv.items))])])
+        if m == "ok_or" and isinstance(recv, VOpaque) and recv.name in ("Some", "None") and len(recv.args) == (1 if recv.name == "Some" else 0):
+            return VOk(recv.args[0]) if recv.name == "Some" else VErr(canon_err(args[0]))
         if m == "last_mut" and isinstance(recv, VArr) and not args:
             return VOpaque("Some", [VRefCell(recv, len(recv.items) - 1)]) if recv.items else VOpaque("None")
         if m == "swap" and isinstance(recv, VArr) and len(args) == 2 and all(isinstance(x, int) for x in args):
